@@ -630,7 +630,11 @@ func (c *caseRun) crumbsTerm() (string, int) {
 		for _, d := range b.Deltas {
 			ds = append(ds, c.tab.suTerm(c.pathID, d))
 		}
-		cs = append(cs, fmt.Sprintf("(mkOC [%s] [%s] %s)", strings.Join(kvs, "; "), strings.Join(ds, "; "), statusNames[b.SyncStatus]))
+		dump := "None"
+		if b.SequenceNumber%4 == 0 || b.VerifNext() == nil {
+			dump = "(Some ([" + strings.Join(kvs, "; ") + "], [" + strings.Join(ds, "; ") + "]))"
+		}
+		cs = append(cs, fmt.Sprintf("(mkOC %s %s)", dump, statusNames[b.SyncStatus]))
 	}
 	return "[" + strings.Join(cs, "; ") + "]", len(cs)
 }
@@ -680,7 +684,10 @@ func runCase(t *testing.T, seed uint64) vline {
 			c.push(false)
 			c.sleep()
 		}
-		ncl := 1 + r.intn(3)
+		ncl := 1
+		if r.pct(45) {
+			ncl = 2 + r.intn(2)
+		}
 		for i := 0; i < ncl; i++ {
 			c.client()
 			for n := r.intn(3); n > 0; n-- {
